@@ -64,12 +64,14 @@ impl Tm {
 pub struct Ctx {
     prefix: String,
     enums: BTreeMap<String, Vec<String>>,
-    /// translated fns: name -> (is_monadic, return type)
-    fns: BTreeMap<String, (bool, Ty)>,
+    /// translated fns: rust name -> (coq name, is_monadic, return type)
+    fns: BTreeMap<String, (String, bool, Ty)>,
     fresh: usize,
     ret_ty: Ty,
     self_fields: Vec<String>,
     self_ty_name: Option<String>,
+    /// name used in the Rust source -> name of the generated inductive
+    enum_alias: BTreeMap<String, String>,
 }
 
 type R<T> = Result<T, String>;
@@ -206,7 +208,7 @@ impl Ctx {
                             return Ty::Opt(Box::new(self.ty_of(a, env)));
                         }
                     }
-                    if let Some((_, t)) = self.fns.get(&n) {
+                    if let Some((_, _, t)) = self.fns.get(&n) {
                         return t.clone();
                     }
                 }
@@ -405,17 +407,16 @@ impl Ctx {
                         let a = self.expr(&c.args[0], env, &inner)?;
                         return Ok(self.seq(vec![a], |n| Tm::Pure(format!("(Some {})", n[0]))));
                     }
-                    if let Some((is_mon, _)) = self.fns.get(&n).cloned() {
+                    if let Some((coq_name, is_mon, _)) = self.fns.get(&n).cloned() {
                         let mut parts = Vec::new();
                         for a in c.args.iter() {
                             parts.push(self.expr(a, env, &Ty::Unknown)?);
                         }
-                        let pre = self.prefix.clone();
                         return Ok(self.seq(parts, |ns| {
                             if is_mon {
-                                Tm::Mon(format!("({}{} m {})", pre, n, ns.join(" ")))
+                                Tm::Mon(format!("({} m {})", coq_name, ns.join(" ")))
                             } else {
-                                Tm::Pure(format!("({}{} {})", pre, n, ns.join(" ")))
+                                Tm::Pure(format!("({} {})", coq_name, ns.join(" ")))
                             }
                         }));
                     }
@@ -951,14 +952,23 @@ impl Ctx {
     }
 
     // ---------- items ----------
-    fn emit_enum(&mut self, e: &syn::ItemEnum, out: &mut String) -> R<()> {
+    fn emit_enum(&mut self, e: &syn::ItemEnum, collapse_payload: bool, out: &mut String) -> R<()> {
         let name = e.ident.to_string();
         let mut vs = Vec::new();
+        let mut collapsed = Vec::new();
         for v in &e.variants {
             if !matches!(v.fields, syn::Fields::Unit) {
+                if collapse_payload {
+                    collapsed.push(v.ident.to_string());
+                    continue;
+                }
                 return err(format!("enum {} has a variant with fields", name));
             }
             vs.push(v.ident.to_string());
+        }
+        if !collapsed.is_empty() {
+            writeln!(out, "(* variants of {} that carry data are collapsed into {}_Other__: {} *)", name, name, collapsed.join(", ")).unwrap();
+            vs.push("Other__".to_string());
         }
         writeln!(out, "Inductive {} : Set :=", name).unwrap();
         for v in &vs {
@@ -1060,7 +1070,7 @@ impl Ctx {
             writeln!(out, "Definition {}{} : {} :=\n  {}.\n", coq_name, ps, ret.coq(), body_s).unwrap();
         }
         let rust_name = sig.ident.to_string();
-        self.fns.insert(rust_name, (is_mon, ret));
+        self.fns.insert(rust_name, (coq_name.to_string(), is_mon, ret));
         Ok(())
     }
 }
@@ -1154,7 +1164,9 @@ pub struct UnitReport {
 }
 
 /// Translate one unit of the spec. Returns the Coq text and a report.
-pub fn translate_unit(repo: &str, unit: &serde_json::Value) -> R<(String, UnitReport)> {
+type Done = BTreeMap<String, (BTreeMap<String, Vec<String>>, BTreeMap<String, (String, bool, Ty)>)>;
+
+pub fn translate_unit(repo: &str, unit: &serde_json::Value, done: &mut Done) -> R<(String, UnitReport)> {
     let file_rel = unit["file"].as_str().ok_or("unit.file missing")?;
     let out_name = unit["out"].as_str().ok_or("unit.out missing")?.to_string();
     let prefix = unit["prefix"].as_str().unwrap_or("").to_string();
@@ -1169,12 +1181,57 @@ pub fn translate_unit(repo: &str, unit: &serde_json::Value) -> R<(String, UnitRe
         ret_ty: Ty::Unknown,
         self_fields: vec![],
         self_ty_name: None,
+        enum_alias: BTreeMap::new(),
     };
     let mut out = String::new();
     let mut rep = UnitReport { out: out_name.clone(), items: vec![] };
     writeln!(out, "(* GENERATED by rs2v from /repo/{} on every run — do not edit. *)", file_rel).unwrap();
-    writeln!(out, "From Verif Require Import Base.I64 Base.F64.\nOpen Scope Z_scope.\n").unwrap();
+    writeln!(out, "From Verif Require Import Base.I64 Base.F64.").unwrap();
     let empty = vec![];
+    for imp in unit["imports"].as_array().unwrap_or(&empty) {
+        let iname = imp.as_str().ok_or("import name")?;
+        let (en, fnm) = done.get(iname).ok_or(format!("import {} not translated before this unit", iname))?;
+        for (k, v) in en {
+            cx.enums.insert(k.clone(), v.clone());
+        }
+        for (k, v) in fnm {
+            cx.fns.insert(k.clone(), v.clone());
+        }
+        writeln!(out, "From Verif Require Import Gen.{}.", iname).unwrap();
+    }
+    writeln!(out, "Open Scope Z_scope.\n").unwrap();
+    for fe in unit["foreign_enums"].as_array().unwrap_or(&empty) {
+        let name = fe["name"].as_str().ok_or("foreign enum name")?;
+        let frel = fe["file"].as_str().ok_or("foreign enum file")?;
+        let fpath = format!("{}/{}", repo, frel);
+        let ftext = std::fs::read_to_string(&fpath).map_err(|e| format!("{}: {}", fpath, e))?;
+        let ffile = syn::parse_file(&ftext).map_err(|e| format!("{}: {}", fpath, e))?;
+        let item = ffile
+            .items
+            .iter()
+            .find_map(|it| match it {
+                Item::Enum(e) if e.ident == name => Some(e.clone()),
+                _ => None,
+            })
+            .ok_or(format!("enum {} not found in {}", name, frel))?;
+        let rename = fe["as"].as_str();
+        let mut item = item;
+        if let Some(r) = rename {
+            item.ident = syn::Ident::new(r, item.ident.span());
+        }
+        cx.emit_enum(&item, fe["collapse_payload"].as_bool().unwrap_or(false), &mut out)?;
+        if let Some(r) = rename {
+            // the Rust code refers to it under its original name or an alias listed in "aliases"
+            let vs = cx.enums.get(r).cloned().unwrap_or_default();
+            for al in fe["aliases"].as_array().unwrap_or(&empty) {
+                if let Some(a) = al.as_str() {
+                    cx.enum_alias.insert(a.to_string(), r.to_string());
+                }
+            }
+            let _ = vs;
+        }
+        rep.items.push((name.to_string(), frel.to_string(), normalized_hash(&item.to_token_stream().to_string())));
+    }
     for en in unit["enums"].as_array().unwrap_or(&empty) {
         let name = en.as_str().ok_or("enum name")?;
         let item = file
@@ -1185,7 +1242,7 @@ pub fn translate_unit(repo: &str, unit: &serde_json::Value) -> R<(String, UnitRe
                 _ => None,
             })
             .ok_or(format!("enum {} not found in {}", name, file_rel))?;
-        cx.emit_enum(item, &mut out)?;
+        cx.emit_enum(item, false, &mut out)?;
         rep.items.push((name.to_string(), file_rel.to_string(), normalized_hash(&item.to_token_stream().to_string())));
     }
     // ordered list of function-like entries
@@ -1323,6 +1380,7 @@ pub fn translate_unit(repo: &str, unit: &serde_json::Value) -> R<(String, UnitRe
             other => return err(format!("unknown item kind {}", other)),
         }
     }
+    done.insert(out_name.clone(), (cx.enums.clone(), cx.fns.clone()));
     Ok((out, rep))
 }
 
@@ -1365,16 +1423,20 @@ pub fn run(repo: &str, spec_path: &str, out_dir: &str) -> i32 {
     };
     let mut report = Vec::new();
     let mut failed = false;
+    let mut done: Done = BTreeMap::new();
     let only: Option<String> = std::env::var("RS2V_ONLY").ok();
     for unit in spec.as_array().cloned().unwrap_or_default() {
         let name = unit["out"].as_str().unwrap_or("?").to_string();
-        if let Some(o) = &only {
-            if !o.split(',').any(|x| x == name) {
-                continue;
-            }
-        }
-        match translate_unit(repo, &unit) {
+        // every unit is translated (later units may import it); only selected ones are written
+        let selected = match &only {
+            Some(o) => o.split(',').any(|x| x == name),
+            None => true,
+        };
+        match translate_unit(repo, &unit, &mut done) {
             Ok((text, rep)) => {
+                if !selected {
+                    continue;
+                }
                 let p = format!("{}/{}.v", out_dir, rep.out);
                 let old = std::fs::read_to_string(&p).unwrap_or_default();
                 if old != text {
@@ -1388,6 +1450,9 @@ pub fn run(repo: &str, spec_path: &str, out_dir: &str) -> i32 {
                 }
             }
             Err(e) => {
+                if !selected {
+                    continue;
+                }
                 failed = true;
                 report.push(serde_json::json!({"unit": name, "error": e}));
                 eprintln!("rs2v: TIE-BROKEN unit {}: {}", name, e);
